@@ -12,7 +12,12 @@ git -C /repo worktree add --detach $lab/repo HEAD >/dev/null 2>&1 || { echo "$na
 if [ "$patch" != "-" ]; then
   git -C $lab/repo apply "$patch" || { echo "$name: patch does not apply"; git -C /repo worktree remove --force $lab/repo; rm -rf $lab; exit 2; }
 fi
-rsync -a --exclude bin --exclude .build --exclude replays --exclude evidence --exclude seeded --exclude .git /verif/ $lab/verif/
+if [ -n "$LAB_COMMITTED" ]; then
+  # harness as committed (HEAD of /verif): immune to edits in progress while a long batch runs
+  mkdir -p $lab/verif && git -C /verif archive HEAD | tar -x -C $lab/verif --exclude=seeded --exclude=evidence --exclude=replays
+else
+  rsync -a --exclude bin --exclude .build --exclude replays --exclude evidence --exclude seeded --exclude .git /verif/ $lab/verif/
+fi
 sed -i "s#=> /repo#=> $lab/repo#" $lab/verif/go.mod
 export VERIF_REPO=$lab/repo
 for id in "$@"; do
